@@ -53,6 +53,31 @@ def gen_cases(rng, n):
                           'spec': '(spec_literal %s)' % coqrun.coq_str(a),
                           'nontrivial': a != '#%02x%02x%02x' % ca, 'key': ('lit', a), 'descr': 'literal'})
             continue
+        if kind < 0.27:
+            # chain (a o b) o' c: clamping after each step (theorem C08_chain); same-precedence operators
+            # unparenthesised (left-associative) or an explicit parenthesis
+            a, ca = (short_lit(rng) if rng.random() < 0.3 else lit(rng))
+            o1, o2 = rng.choice([('+', '-'), ('-', '+'), ('+', '+'), ('-', '-'), ('*', '/'), ('*', '*'), ('+', '*'), ('*', '-'), ('-', '/')])
+            def operand(o):
+                while True:
+                    if o == '*':
+                        x = lit(rng, tuple(rng.choice([0, 1, 2, 3, 5, 17]) for _ in range(3)))
+                    else:
+                        x = short_lit(rng) if rng.random() < 0.3 else lit(rng)
+                    if o != '/' or all(x[1]):
+                        return x
+            (b, cb), (c, cc) = operand(o1), operand(o2)
+            same = (o1 in '+-') == (o2 in '+-')
+            if same and rng.random() < 0.5:
+                expr = '%s %s %s %s %s' % (a, o1, b, o2, c)
+            else:
+                expr = '(%s %s %s) %s %s' % (a, o1, b, o2, c)
+            q = coqrun.coq_str
+            cases.append({'expr': expr, 'wrap': None,
+                          'model': '(opt_bind (color_expr %s %s %s) (fun w => color_expr w %s %s))' % (q(a), q(o1), q(b), q(o2), q(c)),
+                          'spec': '(opt_bind (spec_color_expr %s %s %s) (fun w => spec_color_expr w %s %s))' % (q(a), q(o1), q(b), q(o2), q(c)),
+                          'nontrivial': True, 'key': (a, o1, b, o2, c), 'descr': 'chain %s%s' % (o1, o2)})
+            continue
         op = rng.choice('+-*/')
         a, ca = (short_lit(rng) if rng.random() < 0.3 else lit(rng))
         if op == '/':
